@@ -46,6 +46,17 @@ GF == [
   fb  |-> [kind |-> "fn", sites |-> << Site("a", "d1", Arg), Site("v", "bd", <<"seq", Val("a"), Add(Val("a"), Cn(1))>>),
                                         Site("z", "d0", <<"sum", Val("v")>>) >>,
            ret |-> Add(Val("z"), <<"sum", Val("v")>>)],
+  \* an EVENT-shaped address: one site whose value is a vector and whose log density is ONE number (the event axis is reduced inside
+  \* the distribution). Semantically again the product of its coordinates; built as a single distribution call (as_site, as_event).
+  ed  |-> [kind |-> "vmap", callee |-> "d0", n |-> 2, bcast |-> FALSE, as_site |-> TRUE, as_event |-> TRUE],
+  fe  |-> [kind |-> "fn", sites |-> << Site("a", "d1", Arg), Site("v", "ed", <<"seq", Val("a"), Add(Val("a"), Cn(1))>>),
+                                        Site("z", "d0", <<"sum", Val("v")>>) >>,
+           ret |-> Add(Val("z"), <<"sum", Val("v")>>)],
+  \* ... and a Vmap over a function with an event-shaped address (batch axis in front of the event axis)
+  ge  |-> [kind |-> "fn", sites |-> << Site("v", "ed", <<"seq", Arg, Add(Arg, Cn(1))>>) >>, ret |-> <<"sum", Val("v")>>],
+  vge |-> [kind |-> "vmap", callee |-> "ge", n |-> 2, bcast |-> FALSE],
+  fve |-> [kind |-> "fn", sites |-> << Site("w", "vge", <<"seq", Arg, Add(Arg, Cn(2))>>), Site("z", "d1", <<"sum", Val("w")>>) >>,
+           ret |-> Val("z")],
   \* repeat (in_axes=None)
   rd  |-> [kind |-> "vmap", callee |-> "d1", n |-> 2, bcast |-> TRUE],
   fr  |-> [kind |-> "fn", sites |-> << Site("r", "rd", Arg), Site("y", "d0", <<"sum", Val("r")>>) >>,
